@@ -219,8 +219,8 @@ def run_batch(exe, ops):
     caused it and the batch continues with the next op in a new process.  Returns (result lines, [(index, rc, stderr)])."""
     lines, start, crashes = [], 0, []
     while start < len(ops):
-        stdin = "".join("XT 1 %s\n" % hexs(x) for _, x in ops[start:])
-        rc, out, err, dt = core.run_exe(exe, [], stdin_text=stdin, timeout=1500)
+        stdin = "".join("%s 1 %s\n" % ("XFT" if d.get("entry") == "file" else "XT", hexs(x)) for d, x in ops[start:])
+        rc, out, err, dt = core.run_exe(exe, [], stdin_text=stdin, timeout=1500, env={"VERIF_C06_DIR": core.CACHE})
         got = [l for l in out.split("\n") if l.strip()][:len(ops) - start]
         lines += got
         start += len(got)
@@ -244,8 +244,15 @@ def fault_ops(ctx):
             ov = {b.key: M.relayout(b.text, layout, li) for b in blocks}
             ops.append(({"seed": mi, "what": "layout-only", "layout": layout}, M.render(m, ov)))
         # structural faults: diagnostics attached to elements; only the per-diagnostic oracle applies
-        for desc, x in M.structural_variants(m, M.render(m)):
-            ops.append(({"seed": mi, "what": "structural", "kind": desc}, x))
+        # each in every rendering of the XML layer, through the buffer and through the file entry point
+        for desc, x, expect in M.structural_variants(m, M.render(m)):
+            for layer in M.XML_LAYERS:
+                for entry in ("buffer", "file"):
+                    ops.append(({"seed": mi, "what": "structural", "kind": desc, "xml_layer": layer, "entry": entry, "expect": expect},
+                                M.xml_layer(x, layer)))
+        for layer in M.XML_LAYERS[1:]:
+            for entry in ("buffer", "file"):
+                ops.append(({"seed": mi, "what": "layout-only", "layout": "xml-" + layer, "entry": entry}, M.xml_layer(M.render(m), layer)))
         for bi, blk in enumerate(blocks):
             for li, layout in enumerate(M.LAYOUTS):
                 text0 = M.relayout(blk.text, layout, bi)
@@ -348,6 +355,18 @@ def run_faults(ctx, exe, exe_asan=None):
             if what == "structural":
                 stats["structural_ops"] = stats.get("structural_ops", 0) + 1
                 stats["structural_diags"] = stats.get("structural_diags", 0) + len(r["diags"])
+                if d.get("expect") and not r["exc"]:
+                    # the diagnostic about an element is attached to that element (or to a child of it)
+                    msg, where = d["expect"]
+                    about = [x for x in errs if x["msg"].startswith(msg)]
+                    stats["structural_attribution_checked"] = stats.get("structural_attribution_checked", 0) + 1
+                    wrong = [x for x in about if not (x.get("canon") or "").startswith(where)]
+                    if not about or wrong:
+                        ctx.finding("structural-misplaced:%s" % d["kind"],
+                                    "the %s fault concerns %s; %s" % (d["kind"], where, ("it is reported at %s (%s rendering, %s entry)" % (
+                                        wrong[0]["path"], d["xml_layer"], d["entry"])) if wrong else "no `%s` diagnostic was produced" % msg),
+                                    {"op": d, "xml_hex": hexs(xml), "errors": errs,
+                                     "entry": "parse_XML_file" if d["entry"] == "file" else "parse_XML_buffer(xml, Document*, newxta=true)"})
             continue
         # --- the fault must be located ---------------------------------------------------------------------------
         kind = d["kind"]
@@ -476,10 +495,10 @@ def replay(ctx, path):
     b = core.build_repo("asan")
     exe = core.build_harness(b, "c06", ["c06.cpp"])
     if "xml_hex" in rep:
-        line = "XT 1 %s\n" % rep["xml_hex"]
+        line = "%s 1 %s\n" % ("XFT" if rep.get("op", {}).get("entry") == "file" else "XT", rep["xml_hex"])
     else:
         line = "L %d %d %s\n" % (rep.get("newxta", 1), rep.get("part", 1), rep["text_hex"])
-    rc, out, err, _ = core.run_exe(exe, [], stdin_text=line)
+    rc, out, err, _ = core.run_exe(exe, [], stdin_text=line, env={"VERIF_C06_DIR": core.CACHE})
     print(out[:6000])
     print(err[-3000:])
     try:
@@ -487,6 +506,16 @@ def replay(ctx, path):
     except Exception:
         return 1
     bad = [d for d in res.get("diags", []) if d.get("oracle")]
+    exp = rep.get("op", {}).get("expect")
+    if exp:
+        about = [d for d in res.get("diags", []) if d["k"] == "E" and d["msg"].startswith(exp[0])]
+        for d in about:
+            if not (d.get("canon") or "").startswith(exp[1]):
+                print("MISPLACED:", d["msg"], d["path"], "expected at", exp[1])
+                bad.append(d)
+        if not about:
+            print("MISSING: no", exp[0], "diagnostic")
+            return 1
     for d in bad:
         print("ORACLE:", d["msg"], d["path"], d["oracle"])
     return 1 if (bad or rc != 0 or res.get("exc")) else 0
